@@ -36,6 +36,9 @@ CHECKS = {
  "C02": dict(cat="proof", tech="machine-checked proof in Coq of the reference semantics' IEC laws + extracted reference evaluator judging the implementation's traces",
    text="An independent statically typed reference semantics R (Model/StRef.v, written from IEC 61131-3 and docs/specs) is proved to have the laws the property names (11 theorems: exact arithmetic in the operand type with a fault exactly on overflow for +,-,*; division truncating toward zero with the remainder identity; division/modulo by zero; AND/OR short circuit; FOR bound tested before each iteration; assignment converting to the declared type with a range check) and a witness that the interpreter as it is hides an overflow of the declared type. The extracted R is run on every generated program next to the real interpreter: values of all variables after every cycle and the fault must agree. Partial: the refinement theorem 'interpreter model = R wherever R does not fault' is checked per generated case, not yet proved.",
    note="Known finding overflow-in-declared-type. Same generated programs, harness and interpreter model as C01/C03."),
+ "C05": dict(cat="proof", tech="machine-checked proof in Coq of order-obliviousness over a table of hash-container uses translated from the source on every run + cross-process differential",
+   text="Partial. The only nondeterminism a Gallina model can express is modelled as an adversary choosing the iteration order of hash maps: 4 theorems - any client that only looks up / inserts / tests / removes computes the same results and equivalent maps for every adversary; the interner pattern (ordered vector + index map) assigns ids in first-seen order for every adversary; iteration exposes the adversary's choice (witness); and the proviso, re-checked against a table regenerated from the anchored Rust files on every run: every use of a HashMap/HashSet there is lookup-only or feeds an order-insensitive consumer. Independence of process identity, hash seeds and memory layout is established by compiling generated many-POU programs in 3 separate OS processes (bytes equal) and executing them in 2 (full storage dumps and runtime events equal).",
+   note="Hash seeds, allocator layout and the OS are not modelled; the site scanner is syntactic and covers the anchored files only."),
 }
 REASON_TODO = "check not built yet (work in progress; see DESIGN.md §5 order of work)"
 NA = {}
